@@ -105,7 +105,9 @@ pub struct GenOpts {
 
 /// Ring configuration from the tape (DESIGN 5.1-5.3).
 pub fn gen_ring_cfg(t: &mut Tape, o: &GenOpts) -> RingCfg {
-    let baud = BAUDS[t.below(11) as usize];
+    // corner: long slot times and high addresses, where (6 + 2 addr) Tslot exceeds 16 bit
+    let big_timeouts = o.max_hsa_extra >= 20 && t.chance(1, 12);
+    let baud = if big_timeouts { *t.pick(&[Baudrate::B12000000, Baudrate::B6000000]) } else { BAUDS[t.below(11) as usize] };
     let n = o.min_n + t.below((o.max_n - o.min_n + 1) as u64) as usize;
     // HSA biased towards small values (convergence time is linear in HSA)
     let extra = match t.below(4) {
@@ -113,17 +115,18 @@ pub fn gen_ring_cfg(t: &mut Tape, o: &GenOpts) -> RingCfg {
         1 | 2 => t.below(o.max_hsa_extra.min(20) + 1),
         _ => t.below(o.max_hsa_extra + 1),
     };
-    let hsa = ((n as u64) + 1 + extra).min(126) as u8;
+    let hsa = if big_timeouts { 40 + t.below(87) as u8 } else { ((n as u64) + 1 + extra).min(126) as u8 };
     let mut addrs: Vec<u8> = vec![];
     let mut guard = 0;
     while addrs.len() < n {
         guard += 1;
-        let a = match t.below(7) {
+        let a = match if big_timeouts { 5 + t.below(2) } else { t.below(7) } {
             0 => hsa - 1,
             1 => 0,
             2 if !addrs.is_empty() => (addrs[0] + hsa - 1) % hsa,
             3 if !addrs.is_empty() => (addrs[0] + 1) % hsa,
             4 if !addrs.is_empty() => (addrs[addrs.len() - 1] + 1) % hsa,
+            _ if big_timeouts => 28 + t.below(u64::from(hsa) - 28) as u8,
             _ => t.below(u64::from(hsa)) as u8,
         };
         if !addrs.contains(&a) {
@@ -135,7 +138,7 @@ pub fn gen_ring_cfg(t: &mut Tape, o: &GenOpts) -> RingCfg {
         }
     }
     let min_slot = min_slot_bits(baud);
-    let slot_bits = min_slot + if t.bool() { 0 } else { t.below(601) as u16 };
+    let slot_bits = min_slot + if big_timeouts { 400 + t.below(201) as u16 } else if t.bool() { 0 } else { t.below(601) as u16 };
     let gap = if t.chance(1, 8) { 1 + t.below(100) as u8 } else { 1 + t.below(10) as u8 };
     let default_ttr = u32::from(hsa) * 5000;
     let ttr_bits = match t.below(3) {
@@ -438,6 +441,13 @@ pub struct AccessStats {
 }
 
 pub fn c01_trace_oracle(cfg: &RingCfg, trace: &[TxRecord], real: usize, addr_of: &dyn Fn(usize) -> Option<u8>, online_at_ns: &[i64]) -> Result<AccessStats, Failure> {
+    let ev: Vec<Vec<i64>> = online_at_ns.iter().map(|x| vec![*x]).collect();
+    c01_trace_oracle_ev(cfg, trace, real, addr_of, &ev)
+}
+
+/// As `c01_trace_oracle`, with every instant at which a station went online (a station may leave
+/// and rejoin).
+pub fn c01_trace_oracle_ev(cfg: &RingCfg, trace: &[TxRecord], real: usize, addr_of: &dyn Fn(usize) -> Option<u8>, online_events_ns: &[Vec<i64>]) -> Result<AccessStats, Failure> {
     let mut stats = AccessStats { tokens: 0, requests: 0, replies: 0, claims: 0, retries: 0 };
     // owner = address of the station that currently has the right to initiate
     let mut owner: Option<u8> = None;
@@ -475,7 +485,8 @@ pub fn c01_trace_oracle(cfg: &RingCfg, trace: &[TxRecord], real: usize, addr_of:
                     }
                     let is_owner = owner == Some(x);
                     let retry = matches!(&prev, Some((p, Some(RefFrame::Token { .. }))) if p.sender == t.sender);
-                    let silence_since = prev.as_ref().map(|(p, _)| p.end_ns).unwrap_or(i64::MIN).max(online_at_ns[t.sender]);
+                    let last_online = online_events_ns[t.sender].iter().copied().filter(|o| *o <= t.start_ns).max().unwrap_or(i64::MIN);
+                    let silence_since = prev.as_ref().map(|(p, _)| p.end_ns).unwrap_or(i64::MIN).max(last_online);
                     let tl = cfg.bits_ns(u64::from(cfg.slot_bits) * (6 + 2 * u64::from(x)));
                     let claim = da == sa && t.start_ns - silence_since >= tl - 2 * us;
                     if !(is_owner || retry || claim) {
